@@ -4,6 +4,7 @@ from pathlib import Path
 sys.path.insert(0, str(Path(__file__).resolve().parent))
 import vlib
 from pure_common import run_pure, replay as pure_replay
+import http_common
 
 PROPS = ["KrillModel.Props.C16"]
 RELEVANT = {"no_panic", "validated_arith_total", "covers_total"}
@@ -26,6 +27,11 @@ def check(ctx):
         found = run_pure(ctx, "c16", n, RELEVANT)
     else:
         ctx.failed_obligations.append("harness-build")
+    # path segments and request bodies through the REAL daemon (http harness, profile=pathfuzz)
+    if vlib.build_harness(ctx, ["http"]):
+        found = http_common.run_pathfuzz(ctx) or found
+    else:
+        ctx.failed_obligations.append("harness-build-http")
     vlib.obligations_broken(ctx, found)
     ctx.assumptions += [
         "panic-freedom of the byte-level decoders of third-party crates (rpki-rs, bcder, serde/serde_json, quick-xml) is SAMPLED by the "
@@ -36,12 +42,17 @@ def check(ctx):
         "CaManager::rfc6492 / RepositoryManager::rfc8181 are exercised up to the point a full server is needed: decode + "
         "CertAuth::verify_rfc6492 resp. PublicationCms::decode + validate + as_query; the request handlers behind them (issue, revoke, "
         "publish) and the HTTP layer are left to the system / http streams",
-        "path segments and query strings are parsed by the HTTP layer and are not part of this stream",
+        "path segments and request bodies are additionally sent through the real daemon (http harness, profile=pathfuzz, admin "
+        "credentials): every row of the generated route table with a typed or free segment gets boundary values, the JSON routes "
+        "get structurally mutated bodies; a panic anywhere in the process is recorded by a panic hook, a missing answer or a "
+        "failing follow-up health request counts as well; query strings are not used by krill's API",
     ]
     return vlib.finish(ctx, "proof", RULE)
 
 
 def replay(ctx, data):
+    if data.get("harness") == "http":
+        return http_common.replay(ctx, data, PROPS, [])
     return pure_replay(ctx, data, PROPS)
 
 
@@ -59,6 +70,10 @@ MANIFEST = {
             "domain of krill's length arithmetic on both sides. F-C16-1 (1u128 << 128 for ::/0-128, reached through "
             "nr_of_specific_prefixes in the analyser) was found here and is fixed (da59be0d); F-C16-2 (rpki-rs Asn::from_str slices "
             "s[..2] off a character boundary; reached from krill's JSON request types through ResourceSet) is open, upstream. "
-            "Debug-vs-release overflow behaviour differs (model's none marks both).",
+            "Debug-vs-release overflow behaviour differs (model's none marks both). Typed path segments and request bodies are now "
+            "also exercised through the real daemon (stream http, profile pathfuzz: boundary values for every parameter segment of "
+            "the generated route table, mutated JSON bodies; oracle no_panic = answered, daemon still healthy, no panic recorded by "
+            "the process-wide panic hook): F-C16-3 (history rows -> Vec::with_capacity capacity overflow), F-C16-4 (rpki-rs "
+            "Base64::to_bytes unwrap on invalid base64 in id_cert fields) and the path-segment route to F-C16-2 were found there.",
     "technique": "Lean 4 proof (checked-arithmetic model, totality theorems) + exhaustive finite-domain correspondence + mutation sampling of decoders",
 }
